@@ -682,6 +682,21 @@ func getMaybeFileNames(value json.Marshaler) []string {
 			}
 		}
 		return result
+	case MarshalerMap:
+		var result []string
+		for k, v := range value {
+			if len(k) > 0 && k[0] == os.PathSeparator {
+				result = append(result, k)
+			}
+			if r := getMaybeFileNames(v); len(r) > 0 {
+				if len(result) == 0 {
+					result = r
+				} else {
+					result = append(result, r...)
+				}
+			}
+		}
+		return result
 	case json.RawMessage:
 		value = json.RawMessage(bytes.TrimSpace(value))
 		if len(value) == 0 || bytes.Equal(value, nullBytes) {
